@@ -155,8 +155,8 @@ PROPS = {
     scenarios=[dict(bin="uni", args=[f"kind={k}", "sub=cancel"], runs=500, model_name="M8 Wake", kinds=["cancelled_stream_never_ended", "untargeted_stream_starved", "buffered_event_dropped_at_end", "no_progress", "panic", "invented", "duplicate"]) for k in UNI_KINDS] +
               [dict(bin="multi", args=[f"kind={k}", "sub=reuse"], runs=300, model=False, model_name="(oracle only: a stream id handed out again while its previous owner's removal is finishing)", kinds=["uncancelled_stream_ended", "no_progress", "panic"]) for k in MULTI_KINDS] +
               [dict(bin="exec", args=["sub=endreuse"], runs=120, model=False, single=True, thorough_scale=10, model_name="(oracle only: ONE stream ended through gracefully_end_stream() while its consumer re-subscribes and gets the released id; real clock)", kinds=["uncancelled_stream_ended", "untargeted_stream_starved", "cancelled_stream_never_ended", "buffered_event_dropped_at_end", "panic"])] +
-              [dict(bin="multi", args=[f"kind={k}", "sub=cancelall"], runs=400, model=False, model_name="(oracle only: cancel_all_streams racing with the removal of a listener, Multi channels)", kinds=["cancelled_stream_never_ended", "no_progress", "panic"]) for k in MULTI_KINDS],
-    rule=UNI_RULE + "; cancel requests for a random subset of the streams are injected after a random number of scheduler turns; `multi sub=cancelall`: 2-3 listeners of a Multi channel (MAX_STREAMS = 4) driven by tasks polled only while notified, one thread removing a listener, one calling cancel_all_streams(), a producer sending 0-2 events",
+              [dict(bin="multi", args=[f"kind={k}", "sub=cancelall"], runs=400, model_name="CancelAllLock (M6 bookkeeping + the walker of cancel_all_streams under streams_lock)", kinds=["cancelled_stream_never_ended", "no_progress", "panic"]) for k in MULTI_KINDS],
+    rule=UNI_RULE + "; cancel requests for a random subset of the streams are injected after a random number of scheduler turns; `multi sub=cancelall`: 2-3 listeners of a Multi channel (MAX_STREAMS = 4) driven by tasks polled only while notified, one thread removing a listener, one calling cancel_all_streams(), a producer sending 0-2 events; replayed step by step on model CancelAllLock (every access of the walk, of the stream-id bookkeeping and of the fan-out loops; the poll / park / wake accesses in between belong to model M8 and are absorbed, only the flag value read at sm.flag is taken over to decide `pending` / `end`)",
     trusted_base=TB_COMMON,
     assumptions=["one task (waker) per stream"],
  ),
